@@ -65,6 +65,14 @@ theorem restore_cells {d2 : RB} (hs : d2.stack ≠ [])
       omega
     · rw [if_neg h]; rfl
 
+theorem restore_flags (d : RB) : (restore d).aborted = d.aborted ∧ (restore d).fuelOut = d.fuelOut := by
+  unfold restore
+  cases d.stack with
+  | nil => exact ⟨rfl, rfl⟩
+  | cons f prev =>
+    simp only []
+    cases f.penOnly <;> exact ⟨rfl, rfl⟩
+
 theorem penWrap {dst d2 : RB} (hwf : WF dst) (p : Option Pen) {L0 C0 n : Int} {newc : Int → Content → Content}
     (h : DrawSpec (setpen (savepen dst) p) d2 L0 C0 n newc) : DrawSpec dst (restore d2) L0 C0 n newc := by
   have haux : SameAux (restore d2) dst := sameAux_restore_of_savepen dst d2 p h.aux
@@ -79,7 +87,8 @@ theorem penWrap {dst d2 : RB} (hwf : WF dst) (p : Option Pen) {L0 C0 n : Int} {n
     have := (hwf.mask l c h0 h1 h2 h3).2
     show ((dst.cells l).get c).maskdepth ≤ dst.depth + 1 - 1
     omega)
-  refine ⟨haux, ⟨?_, ?_, ?_⟩, ?_, ?_, ?_⟩
+  refine ⟨haux, ⟨?_, ?_, ?_⟩, ?_, ?_, ?_,
+    ⟨(restore_flags d2).1.trans h.flags.1, (restore_flags d2).2.trans h.flags.2⟩⟩
   · intro l h0 h1
     rw [hcells l, haux.cols, ← hc]
     exact h.wf.rows l h0 (by rw [hl, ← haux.lines]; exact h1)
@@ -112,7 +121,7 @@ theorem DrawSpec.newc_congr {rb rb' : RB} {L0 C0 n : Int} {newc newc' : Int → 
   rw [← this]; exact h
 
 theorem drawSpec_id {rb : RB} (hwf : WF rb) (L0 C0 n : Int) : DrawSpec rb rb L0 C0 n (fun _ old => old) := by
-  refine ⟨SameAux.refl, hwf, fun _ _ _ _ _ _ => rfl, fun L C => ?_, fun _ _ _ _ _ _ _ h => h⟩
+  refine ⟨SameAux.refl, hwf, fun _ _ _ _ _ _ => rfl, fun L C => ?_, fun _ _ _ _ _ _ _ h => h, ⟨rfl, rfl⟩⟩
   by_cases hc : L = L0 ∧ C0 ≤ C ∧ C < C0 + n ∧ writable rb L C = true
   · rw [if_pos hc]
   · rw [if_neg hc]
